@@ -182,7 +182,7 @@ pub fn run(ctx: &Ctx) -> i32 {
          related jump for jump-to-function). distinct_nontrivial = distinct (class, program text) pairs judged",
     );
     rep.assume("expected-kind table of DESIGN.md C05; collateral diagnostics are allowed");
-    let per_class: usize = ctx.tier.pick(64, 5000);
+    let per_class: usize = ctx.tier.pick(160, 5000);
     let prof = Profile::conforming();
     let jobs = ctx.jobs;
     let acc = run_sharded(ctx, |shard| {
